@@ -34,6 +34,10 @@ def rerun(path):
         print("replay harness failed:", (p.stdout + p.stderr)[-800:])
         return 3
     print(json.dumps(res, indent=1, default=str)[:4000])
+    from .report import _same_clause
+    if res.get("reproduced") and not _same_clause({"info": rec.get("info")}, res):
+        print("the native run fails, but not in the clause this obligation is about: not counted as a reproduction")
+        return 0
     if res.get("reproduced"):
         print(f"VIOLATION property={rec.get('property')} replay={path}")
         return 1
